@@ -94,7 +94,7 @@ def run(c):
 
     def code():
         rd = c.build("record_direct", ["record_direct.cpp"], flags=["-fno-access-control"])
-        runs = [("small", 1, 4000), ("random", 1, 400), ("random", 4, 400), ("inverse", 1, 2500), ("sm", 1, 600), ("qr", 1, 800), ("reuse", 1, 800), ("reuse", 4, 800)]
+        runs = [("small", 1, 4000), ("random", 1, 400), ("random", 4, 400), ("inverse", 1, 2500), ("sm", 1, 600), ("qr", 1, 800), ("reuse", 1, 800), ("reuse", 4, 800), ("long", 1, 40), ("long", 4, 40), ("smc", 1, 800)]
         if th:
             runs += [("random", 16, 400)]
         for mode, nt, chunk in runs:
